@@ -11,6 +11,7 @@ import (
 	"sort"
 	"strings"
 	"sync"
+	"time"
 )
 
 // VC is a vector clock indexed by thread id.
@@ -123,6 +124,8 @@ type Sched struct {
 	objs     []*Obj
 	key      uint64 // incremental sum of H(id,h) over threads and objects
 	aborting bool
+	clock    time.Duration // virtual time elapsed since clockEpoch
+	clockObj *Obj          // shared object standing for the clock (part of the state fingerprint)
 	finished chan struct{}
 	finOnce  sync.Once
 	wg       sync.WaitGroup
@@ -495,6 +498,33 @@ func Choose(n int) int {
 	}
 	s := S
 	return s.choose(n, true, 'c', s.cur, nil)
+}
+
+// clockEpoch is the instant every execution starts at (fixed: executions are deterministic).
+var clockEpoch = time.Date(2024, 5, 17, 10, 0, 0, 0, time.UTC)
+
+// Now is the explorer's clock: every reading is an environment choice point at
+// which the clock ticks by a millisecond (default) or jumps ahead by an hour
+// (one deviation): elapsed wall-clock time is something the environment decides.
+func Now() time.Time {
+	s := S
+	if s == nil {
+		return clockEpoch
+	}
+	if s.aborting {
+		return clockEpoch.Add(s.clock)
+	}
+	if s.clockObj == nil {
+		s.clockObj = NewObj("clock")
+	}
+	if Choose(2) == 1 {
+		s.clock += time.Hour
+		s.touch("clock-jump", nil, []*Obj{s.clockObj})
+	} else {
+		s.clock += time.Millisecond
+		s.touch("clock-tick", nil, []*Obj{s.clockObj})
+	}
+	return clockEpoch.Add(s.clock)
 }
 
 // schedule picks the next thread to run. cur is the thread giving up control
